@@ -575,6 +575,8 @@ def dispatch_exactness(chk):
     for k, r, s in eng.run(P.func("serdes.TypeCodec.encode"), [tc, v], st=st):
         chk.paths += 1
         if k == "raise":
+            if not (isinstance(r, Ref) and getattr(r.cls, "name", "") == "SerDesError"):
+                chk.prove("C15.dispatch.accepts_only_exact_classes", s.pc, F, desc="a value the serializer does not accept is rejected with SerDesError (and with nothing else)")
             continue  # rejected with SerDesError: fine for every class
         n_acc += 1
         chk.prove("C15.dispatch.accepts_only_exact_classes", s.pc, any_exact,
